@@ -1,9 +1,12 @@
 """C05 SpecifierSet is the conjunction of its specifiers; & is intersection; str round trip."""
 import itertools
+import os
 from core import Case
 import gen, gen_sets as G
 
 IMPL_MODULE = "sets_impl"
+# the iteration order of the member frozenset depends on the hash seed: vary it with the run seed (every observation must be invariant)
+IMPL_ENV = {"PYTHONHASHSEED": str(int(os.environ.get("VERIF_SEED", "0") or 0) % 4294967295)}
 RULE = ("stack programs over SpecifierSet objects: clause multisets (operators x admissible/inadmissible version forms drawn from a small pool of "
         "related versions) in shuffled order with duplicates, stray commas and Unicode spacing, overrides None/True/False on either operand and on "
         "the call, a & b, a & 'text', sets built from Specifier objects with their own overrides, candidates that are neighbours of the clause "
